@@ -38,6 +38,7 @@ import (
 // Epoch is one sharing of the group secret.
 type Epoch struct {
 	N, Thr  int          // N = number of dealt share indices 0..N-1 (members and vacant ones)
+	Me      int          // the index the node under test holds in this epoch (a resharing may change it)
 	Members []int        // the indices held by group members, ascending; the others are vacant
 	Shares  []*key.Share // by share index (the holders of vacant indices have valid shares too:
 	// they are the participants a DKG left out of QUAL)
@@ -54,7 +55,8 @@ type World struct {
 	Secret  kyber.Scalar
 	Privs   []*key.Pair // identities, position = group index (epoch 0); later epochs may extend
 	Epochs  []*Epoch
-	Me      int // group index of the node under test
+	Me      int  // group index of the node under test (epoch 0) and position of its identity in Privs
+	FixedMe bool // system engine: epochs are shared between the nodes' worlds, every node keeps its index
 
 	Clock  *clock.FakeClock
 	CClock *countingClock
@@ -225,7 +227,7 @@ func NewWorld(sch *crypto.Scheme, n, thr, me int, period, genesis, now int64, st
 	w.Log = log.New(&declineSink{w: w}, log.WarnLevel, false)
 	w.Secret = sch.KeyGroup.Scalar().Pick(random.New())
 	w.Me = me
-	ep, err := w.newEpoch(n, thr, 0, vacant)
+	ep, err := w.newEpoch(n, thr, 0, vacant, -1)
 	if err != nil {
 		return nil, err
 	}
@@ -264,17 +266,27 @@ func NewWorld(sch *crypto.Scheme, n, thr, me int, period, genesis, now int64, st
 	return w, w.newHandler()
 }
 
-func (w *World) newEpoch(members, thr int, transition int64, vacant []int) (*Epoch, error) {
+// meIdx: the index the node under test holds in the new epoch (-1: the one of its identity, w.Me).
+// Identities keep their position as index except that the node under test swaps places with the
+// holder of meIdx (drand assigns indices by the sort order of the participants' keys: a leaver or
+// joiner shifts the remaining nodes).
+func (w *World) newEpoch(members, thr int, transition int64, vacant []int, meIdx int) (*Epoch, error) {
 	n := members + len(vacant)
+	if meIdx < 0 {
+		meIdx = w.Me
+	}
+	if meIdx >= n {
+		return nil, fmt.Errorf("bad own index %d", meIdx)
+	}
 	isVacant := map[int]bool{}
 	for _, v := range vacant {
-		if v < 0 || v >= n || v == w.Me {
+		if v < 0 || v >= n || v == meIdx {
 			return nil, fmt.Errorf("bad vacant index %d", v)
 		}
 		isVacant[v] = true
 	}
 	shares, pub, commits := deal(w.Sch, w.Secret, n, thr)
-	for len(w.Privs) < n {
+	for len(w.Privs) < n || len(w.Privs) <= w.Me {
 		p, err := key.NewKeyPair(fmt.Sprintf("127.0.0.1:%d", 7000+len(w.Privs)), w.Sch)
 		if err != nil {
 			return nil, err
@@ -288,7 +300,13 @@ func (w *World) newEpoch(members, thr int, transition int64, vacant []int) (*Epo
 			continue
 		}
 		mem = append(mem, i)
-		nodes = append(nodes, &key.Node{Index: uint32(i), Identity: w.Privs[i].Public})
+		id := i
+		if i == meIdx {
+			id = w.Me
+		} else if i == w.Me {
+			id = meIdx
+		}
+		nodes = append(nodes, &key.Node{Index: uint32(i), Identity: w.Privs[id].Public})
 	}
 	g := key.LoadGroup(nodes, w.Genesis, &key.DistPublic{Coefficients: commits}, time.Duration(w.Period)*time.Second, 0, w.Sch, "default")
 	g.Threshold = thr
@@ -298,7 +316,7 @@ func (w *World) newEpoch(members, thr int, transition int64, vacant []int) (*Epo
 		g.GenesisSeed = w.Epochs[0].Group.GenesisSeed
 		g.TransitionTime = transition
 	}
-	return &Epoch{N: n, Thr: thr, Members: mem, Shares: shares, Group: g, PubPoly: pub}, nil
+	return &Epoch{N: n, Thr: thr, Me: meIdx, Members: mem, Shares: shares, Group: g, PubPoly: pub}, nil
 }
 
 // IsMember reports whether share index i is held by a member of this epoch's group.
@@ -327,7 +345,8 @@ func (w *World) newHandler() error {
 	ep := w.Epochs[0]
 	// after a reshare the node restarts with its latest group/share
 	ep = w.cur()
-	conf := &beacon.Config{Group: ep.Group, Public: ep.node(w.Me), Share: ep.Shares[w.Me], Clock: w.CClock}
+	me := w.meIn(ep)
+	conf := &beacon.Config{Group: ep.Group, Public: ep.node(me), Share: ep.Shares[me], Clock: w.CClock}
 	h, err := beacon.NewHandler(context.Background(), w.Client, w.Rec, conf, w.Log, common.GetAppVersion())
 	if err != nil {
 		return err
@@ -408,3 +427,21 @@ func (w *World) Head() uint64 {
 
 // Close on the wrapper is a no-op: the base store must survive a handler stop (restart cases).
 func (r *recStore) Close() error { return nil }
+
+// isOwnIndex: does the node under test hold index i in one of its epochs?
+func (w *World) isOwnIndex(i int) bool {
+	for _, e := range w.Epochs {
+		if w.meIn(e) == i {
+			return true
+		}
+	}
+	return false
+}
+
+// meIn: the index the node under test holds in epoch ep.
+func (w *World) meIn(ep *Epoch) int {
+	if w.FixedMe {
+		return w.Me
+	}
+	return ep.Me
+}
